@@ -419,11 +419,35 @@ def gen_arrays(rng, lens, mode):
     return arrs, axes, stack_axis, conc
 
 
+def _is_sorted(d):
+    d = np.asarray(d)
+    return bool(np.all(np.diff(d) > 0))
+
+
 def _case(rng, layout, texture, count, mode):
     doms = gen_domains(rng, layout, texture, count)
+    k = int(rng.integers(12))
+    if k == 0 and layout in ("same", "nested", "partial"):
+        # two domains of the SAME length that differ by a small shift or stretch (1e-9 .. 1e-1 of a step): still
+        # different domains (a new overlap domain is due), never 'already shared'
+        d = np.asarray(doms[0], float)
+        step = float((np.max(d) - np.min(d)) / max(len(d) - 1, 1))
+        e = step * float(10 ** rng.uniform(-9, -1))
+        doms[1] = d + e if rng.integers(2) else np.min(d) + (d - np.min(d)) * (1.0 + e / max(np.max(d) - np.min(d), step))
+        layout = "nearequal"
+    elif k == 1 and layout in ("touching", "disjoint"):
+        # same-length domains that do not overlap
+        n = min(len(d) for d in doms[:2])
+        doms = [np.asarray(d)[:n] if j < 2 and _is_sorted(d) else d for j, d in enumerate(doms)]
+    unit = 0
+    if rng.integers(4) == 0:
+        # other units of the domain (metres instead of nanometres, ...): powers of two, so that every float decision
+        # of the oracle (and of a correct implementation) is unchanged
+        unit = int([-30, -20, -10, 10, 20][rng.integers(5)])
+        doms = [np.asarray(d, float) * 2.0 ** unit for d in doms]
     arrs, axes, stack_axis, conc = gen_arrays(rng, [len(d) for d in doms], mode)
     return {"domains": doms, "arrs": arrs, "axes": axes, "stack_axis": stack_axis, "concatenate": bool(conc),
-            "layout": layout, "texture": texture, "mode": mode}
+            "layout": layout, "texture": texture, "mode": mode, "unit_pow2": unit}
 
 
 def gen_main(rng, i):
@@ -461,6 +485,8 @@ def _norm_axes(axes, arrs):
 
 def _cells(c, inp, domains, arrs, axes_n):
     c.cell("layout=" + inp["layout"], "texture=" + inp["texture"], "n_domains=%d" % len(domains))
+    if inp.get("unit_pow2", 0):
+        c.cell("domain-units=" + ("small" if inp["unit_pow2"] < 0 else "large"))
     axes = inp["axes"]
     c.cell("axes=None" if axes is None else "axes=int" if isinstance(axes, (int, np.integer)) else "axes=list")
     if axes is not None and np.any(np.asarray(axes) < 0):
@@ -707,7 +733,16 @@ def gen_cap(rng, i):
             # equal lengths: the two arrays can only be told apart by their domains
             lo, hi = float(np.min(sd)), float(np.max(sd))
             sd = _mk(rng, lo, hi, fd.size, "uniform" if texture == "uniform" else "random")
+        if kind in ("equalised", "register_system") and rng.integers(6) == 0:
+            # same length, shifted by a small fraction of a step: a different domain all the same
+            d = np.asarray(fd, float)
+            step = float((np.max(d) - np.min(d)) / max(len(d) - 1, 1))
+            sd = d + step * float(10 ** rng.uniform(-6, -1)) * (1 if rng.integers(2) else -1)
         nfd, nsd = fd.size, sd.size
+    if rng.integers(4) == 0:
+        # other domain units (powers of two: all float decisions unchanged)
+        u = 2.0 ** int([-30, -20, -10, 10, 20][rng.integers(5)])
+        fd, sd = np.asarray(fd, float) * u, np.asarray(sd, float) * u
     filters = np.abs(rng.normal(0, 1, (nf, nfd))) * 10 ** rng.uniform(-2, 2)
     signals = np.abs(rng.normal(0, 1, (nsd,) if sig1d else (ns, nsd))) * 10 ** rng.uniform(-2, 2)
     if rng.integers(6) == 0:
